@@ -432,6 +432,30 @@ func ptyResize(out *scenOut, rr *rng) {
 		}
 		time.Sleep(15 * time.Millisecond)
 	}
+	// two resizes back to back while Update is busy: the size reported last must be the true one
+	{
+		r.pair.master.Write([]byte("b"))
+		if r.waitLog("blocking", 2*time.Second) {
+			w1, h1 := w+7, h+3
+			setWinsize(r.pair.master, w1, h1)
+			time.Sleep(20 * time.Millisecond)
+			w, h = w1+5, h1+2
+			setWinsize(r.pair.master, w, h)
+			time.Sleep(20 * time.Millisecond)
+			os.WriteFile(r.gate, []byte("x"), 0o644)
+			final := fmt.Sprintf("%d %d", w, h)
+			if !waitFor(2*time.Second, func() bool { s := r.sizes(); return len(s) > 0 && s[len(s)-1] == final }) {
+				s := r.sizes()
+				last := ""
+				if len(s) > 0 {
+					last = s[len(s)-1]
+				}
+				out.fail(finding{Property: "C18", Class: "new", What: "after two resizes in quick succession while Update was busy, the size reported last is not the true size", Input: desc + " then busy-resize to " + final,
+					Expected: final, Observed: last})
+			}
+			want = r.sizes() // (the intermediate size may or may not have been reported)
+		}
+	}
 	desc += " -> " + strings.Join(want, ", ")
 	out.record(desc, desc)
 	got := r.sizes()
@@ -458,6 +482,9 @@ func ptyResize(out *scenOut, rr *rng) {
 			idx = i // the start of the last paint of the long line
 			break
 		}
+	}
+	if rs := r.sizes(); len(rs) > 0 {
+		fmt.Sscanf(rs[len(rs)-1], "%d", &w) // the most recently REPORTED width
 	}
 	if idx >= 0 {
 		end := idx
